@@ -13,7 +13,8 @@ pub const F_CLOSURE_PANIC: usize = 6;
 pub const F_SINK: usize = 7;
 pub const F_HASHER: usize = 8;
 pub const F_SOURCE_EXTRA: usize = 9;
-pub const N_FAULTS: usize = 10;
+pub const F_ARITH_PANIC: usize = 10;
+pub const N_FAULTS: usize = 11;
 pub const FAULT_NAMES: [&str; N_FAULTS] = [
     "F1-cancel(drop mid-history)",
     "F2-forget(mem::forget)",
@@ -25,6 +26,7 @@ pub const FAULT_NAMES: [&str; N_FAULTS] = [
     "F8-sink-failure(the formatter sink returns Err at its k-th write: `?` early returns in Debug/Display)",
     "F9-hasher-panic(the caller's Hasher unwinds at its k-th write)",
     "F10-source-hint/drop-panic(the from_iter source's size_hint() or its own destructor unwinds)",
+    "F11-operator-panic(the element type's own Add/Mul/AddAssign/Neg/MulAdd impl unwinds at its k-th call; zero()/one() or the source of vectors unwinds inside Sum/Product)",
 ];
 
 macro_rules! probes {
@@ -83,8 +85,12 @@ probes! {
     P_MAT_SHRINK = 46, "truncating matrix conversion (Mat4 -> Mat3 / Mat2, Mat3 -> Mat2)";
     P_SOURCE_EXTRA_FIRED = 47, "from_iter source's size_hint() / destructor panic fired";
     P_CLONE_FROM = 48, "clone_from on a vector (old elements of the destination destroyed, fresh clones in place)";
+    P_ARITH = 49, "element-wise operator / mul_add / sum / product on a vector of non-Copy elements";
+    P_ARITH_PANIC_FIRED = 50, "panic inside the element type's operator impl fired";
+    P_ARITH_SUM_SOURCE = 51, "Sum / Product over a source of vectors of non-Copy elements";
+    P_ARITH_ASSIGN_PANIC_CONTINUES = 52, "v += w interrupted by a panicking element operator, vector still used afterwards";
 }
-pub const N_PROBES: usize = 49;
+pub const N_PROBES: usize = 53;
 
 pub const N_OPK: usize = 80;
 
